@@ -24,7 +24,7 @@ def write_cases(path, cases):
 
 
 def sig(e):
-    fam = "SORTKIND " if e["meta"].get("fam") == "sortkind" else ""     # (numbers of different kinds in a sorted loop: fix fea5965)
+    fam = {"sortkind": "SORTKIND ", "caselast": "CASELAST "}.get(e["meta"].get("fam"), "")     # (SORTKIND: fix fea5965; CASELAST: recorded finding)
     return "template %s%r -> out=%r" % (fam, "".join(chr(u) for u in e["t"])[:300], "".join(chr(u) for u in e["out"])[:200])
 
 
@@ -40,6 +40,18 @@ def sortkind_cases():
             text = '<loop set="mix" value="v" sort="%s">%s,</loop>' % (word, src)
             nodes = [{"t": "loop", "hasset": 1, "set": {"loop": [], "base": U("mix"), "steps": []}, "value": U("v"), "group": [], "sort": srt, "body": body}]
             out.append((doc, nodes, text, "sortkind"))
+    return out
+
+
+def caselast_cases():
+    """the documentation lists `{if true="one" case="1"}` as accepted ("OK"): an inline if whose case= is not the first attribute"""
+    U = tmplgen.U
+    out = []
+    doc = {"t": "O", "m": [{"k": U("a"), "v": tmplgen.numdoc(16)}]}
+    one = {"t": "lit", "n": 16}
+    for text, T, F in (('{if true="one" case="1"}', "one", ""), ('{if false="n" true="y" case="1"}', "y", "n"), ("{if true='one' false='two' case='1'}", "one", "two")):
+        nodes = [{"t": "iif", "c": [one], "T": [{"t": "text", "s": U(T)}] if T else [], "F": [{"t": "text", "s": U(F)}] if F else []}]
+        out.append((doc, nodes, text, "caselast"))
     return out
 
 
@@ -92,6 +104,7 @@ def main():
         g = tmplgen.Gen(c.seed * 1000003 + i)
         cases.append(g.template(depth=3 if i % 3 else 2))
     cases += sortkind_cases()
+    cases += caselast_cases()
     inp = os.path.join(c.out, "templates.txt")
     write_cases(inp, cases)
     p = os.path.join(c.out, "render.ndjson")
